@@ -84,7 +84,7 @@ Definition ex_imp (r : nat) : option value := Some VUndef.
 Definition ex_noisy_toprim (id : nat) : outcome := ([42], Ok (VNum 0)).   (* user valueOf: emits probe 42 *)
 Definition ex_eval := eval ex_unbound ex_env ex_glob ex_imp VUndef ex_noisy_toprim
   (fun _ => ([43], Throw)) (fun _ _ => ([44], Ok VUndef)) (fun _ => ([45], Throw)) (fun _ _ => ([46], Throw))
-  (fun _ _ _ => true) (fun _ _ => true).
+  (fun _ _ _ => true) (fun _ _ => true) (fun _ => ([], Ok VUndef)) (fun _ _ => true).
 
 (* typeof x7 !== "undefined" && x7   -- removable, and silent although x7 does not exist *)
 Definition ex_guarded : node :=
@@ -116,6 +116,35 @@ Example ex_pure_literal :
   let e := EArray [ENum 1; ETemplate None false [ENum 2]; EBinary BStrictEq (EIdent 3 false false) ENull;
                    EBinary BLt (EUnary UNeg (EBigInt 5) false) (EBigInt 6)] in
   can_remove ex_unbound e = true /\ plain e = true /\ ex_eval e = ([], Ok (VObj 0)).
+Proof. vm_compute. auto. Qed.
+
+(* class C { static ["k"] = `a${1}`; static { var [a = 1 === 2, b] = [x3]; } }  and
+   var [p = null ?? 1] = [void 0]; try { class D extends x3 {} } finally { }
+   are removable and run silently (the destructuring defaults DO run in this world);
+   a static block with an impure default is kept, and the semantics shows why *)
+Definition ex_class : node :=
+  CClass false None
+    [PProp KField true true false false (EStr [107]) None (Some (ETemplate None false [ENum 1])) [];
+     PProp KStaticBlock false false false false ENull None None
+       [SLocal LVar [DDecl (BArray [BItem BIdent (Some (EBinary BStrictEq (ENum 1) (ENum 2))); BItem BIdent None])
+                           (Some (EArray [EIdent 3 false false]))]]] true.
+Example ex_class_removable : can_remove ex_unbound ex_class = true /\ plain ex_class = true.
+Proof. vm_compute. auto. Qed.
+Example ex_class_silent : ex_eval ex_class = ([], Ok (VObj 0)).
+Proof. vm_compute. reflexivity. Qed.
+Definition ex_stmts : list node :=
+  [SLocal LVar [DDecl (BArray [BItem BIdent (Some (EBinary BNullish ENull (ENum 1)))]) (Some (EArray [EUnary UVoid (ENum 0) false]))];
+   STry [SClass (CClass false (Some (EIdent 3 false false)) [] true)] true []].
+Example ex_stmts_removable :
+  stmts_can_remove ex_unbound false false ex_stmts = true /\ forallb plain ex_stmts = true /\
+  exec_stmts ex_unbound ex_env ex_glob ex_imp VUndef ex_noisy_toprim
+    (fun _ => ([43], Throw)) (fun _ _ => ([44], Ok VUndef)) (fun _ => ([45], Throw)) (fun _ _ => ([46], Throw))
+    (fun _ _ _ => true) (fun _ _ => true) (fun _ => ([], Ok VUndef)) (fun _ _ => true) ex_stmts = ([], Ok VUndef).
+Proof. vm_compute. auto. Qed.
+Example ex_static_block_kept :
+  let c := CClass false None [PProp KStaticBlock false false false false ENull None None
+             [SLocal LVar [DDecl (BArray [BItem BIdent (Some (EUnary UPos (EObject []) false))]) (Some (EArray [EUndefined]))]]] true in
+  can_remove ex_unbound c = false /\ ex_eval c = ([45], Throw).
 Proof. vm_compute. auto. Qed.
 
 (* ---- Build.v: a two-file program.
